@@ -40,6 +40,9 @@ func c19List(tier string) []c19Case {
 		out = append(out, c19Case{Family: "chan", N: tierN(tier, 500, 1700)})
 		out = append(out, c19Case{Family: "http-roundtrip", N: tierN(tier, 60, 300)})
 	}
+	for i := 0; i < tierN(tier, 4, 24); i++ {
+		out = append(out, c19Case{Family: "ws-abandoned-write", N: i})
+	}
 	for i := 0; i < tierN(tier, 2, 10); i++ {
 		out = append(out, c19Case{Family: "http-shapes"})
 		for _, v := range []string{"read", "write"} {
@@ -145,6 +148,8 @@ func c19Run(tier string, seed int64, idx int) *core.Result {
 		c19WSRound(tier, c, r, res)
 	case "ws-raw":
 		c19WSRaw(tier, c, r, res)
+	case "ws-abandoned-write":
+		c19WSAbandonedWrite(tier, c.N, res)
 	case "chan":
 		c19Chan(tier, c, r, res)
 	case "http-shapes":
@@ -738,12 +743,12 @@ func init() {
 	core.Register(&core.Prop{
 		ID:    "C19",
 		Level: "exploration",
-		Rule:  "(ws-roundtrip) envelopes cycling all 32 presence combinations of the five sub-messages x ids {0,1,2^31,2^63,2^64-1,random} x bodies {0,1,32Ki-1,32Ki,32Ki+1,1Mi} x non-ASCII strings x repeated fields over a real loopback WebSocket, both directions, proto.Equal and order; (ws-raw) text frames, truncated / bit-flipped / random / empty byte strings: Read fails iff a reference proto.Unmarshal fails and never decodes differently; (chan) pointer identity, order, context on a blocked Read and Write judged at final states; (http-shapes) ServeHTTP with nil / empty / garbage / truncated / header-less / source-less / unmappable / random bodies => 400 and never delivered, valid => delivered once; (http-roundtrip) Write over a loopback HTTP server into another instance; (http-ctx) blocked Read / Write after cancel; (http-cleaner) fake-clock idle tick before, during (blocked send, and parked just before the send by a hook) and after a delivery with ServeHTTP under recover, and a blocked reader of a connection that times out. Distinct = case descriptors.",
+		Rule:  "(ws-roundtrip) envelopes cycling all 32 presence combinations of the five sub-messages x ids {0,1,2^31,2^63,2^64-1,random} x bodies {0,1,32Ki-1,32Ki,32Ki+1,1Mi} x non-ASCII strings x repeated fields over a real loopback WebSocket, both directions, proto.Equal and order; (ws-raw) text frames, truncated / bit-flipped / random / empty byte strings: Read fails iff a reference proto.Unmarshal fails and never decodes differently; (chan) pointer identity, order, context on a blocked Read and Write judged at final states; (http-shapes) ServeHTTP with nil / empty / garbage / truncated / header-less / source-less / unmappable / random bodies => 400 and never delivered, valid => delivered once; (http-roundtrip) Write over a loopback HTTP server into another instance; (http-ctx) blocked Read / Write after cancel; (http-cleaner) fake-clock idle tick before, during (blocked send, and parked just before the send by a hook) and after a delivery with ServeHTTP under recover, and a blocked reader of a connection that times out. Distinct = case descriptors. (ws-abandoned-write) a 200 KB Write whose context is cancelled while its frame is half-way onto the (stalling) loopback socket must return; three further Writes must return, and every envelope whose Write returned nil is read on the other end in write order; a Write that never returns is a violation when every goroutine is blocked and no byte is in flight between the two sockets (both ends are in the process), otherwise the 45 s bound is inconclusive.",
 		Plan:  func(tier string, seed int64) int { return len(c19List(tier)) },
 		Run:   c19Run,
 		Workers: 8,
 		RequiredStats: func(string) []string {
-			return []string{"ws_envelopes_roundtripped", "ws_raw_inputs_text-frame", "ws_raw_inputs_bit-flipped", "chan_ctx_ops_checked", "http_request_shapes", "http_envelopes_roundtripped", "cleaner_scenarios", "http_ctx_reads_checked"}
+			return []string{"ws_envelopes_roundtripped", "ws_raw_inputs_text-frame", "ws_raw_inputs_bit-flipped", "chan_ctx_ops_checked", "http_request_shapes", "http_envelopes_roundtripped", "cleaner_scenarios", "http_ctx_reads_checked", "ws_abandoned_write_cases"}
 		},
 		Assumptions: []string{"WebSocket and HTTP involve kernel I/O: 'returns after cancel' is judged with generous wall-clock watchdogs there (expiry = inconclusive for WebSocket; the HTTP Read path has no I/O and the HTTP Write bound is 10 s)", "the WebSocket read limit is configured by the harness on the connections it supplies"},
 	})
